@@ -129,6 +129,11 @@ pub fn get_user_data(raw_value: &[u8]) -> &[u8] {
     }
 }
 
+/// True when the stored record carries an MVCC header whose delete flag is set.
+pub fn is_tombstone(raw_value: &[u8]) -> bool {
+    raw_value.len() >= RecordHeader::SIZE && RecordHeader::from_bytes(raw_value).is_deleted()
+}
+
 pub fn has_mvcc_header(raw_value: &[u8]) -> bool {
     raw_value.len() >= RecordHeader::SIZE
 }
